@@ -200,6 +200,8 @@ def pytest_route(chk):
         with ThreadPoolExecutor(max_workers=5) as ex:
             res = list(ex.map(one, configs))
         for (names, c, imports), got in res:
+            if "error" in got:
+                raise MachineryFailure("pytest sub-process did not report: " + got["error"])
             exp = expected(names, c, imports)
             if got != exp:
                 chk.disagree(f"C11:pytest-option:{','.join(names)}/{c}:imports={imports}", {"expected": exp, "observed": got})
